@@ -19,7 +19,7 @@
 #include "config.h"
 
 /* reach the file-local `nodeGlobal` */
-#include "../../mptcore/config/config_global.c"
+#include "config/config_global.c"
 
 static unsigned cksum(const uint8_t *b, size_t n)
 {
@@ -366,6 +366,8 @@ static void run_path(int ntok, char **tok)
 		else if (!strcmp(op, "post")) {
 			size_t n, k;
 			uint8_t *b = vh_unhex(tok[i++], &n);
+			/* keep post data that is already there (mpt_path_valid sets KeepPost), then append */
+			mpt_path_valid(&p);
 			for (k = 0; k < n; k++) {
 				if (mpt_path_addchar(&p, b[k]) < 0) { vh_tok("F:addchar"); return; }
 				mpt_path_valid(&p);
